@@ -39,7 +39,10 @@ PARTIAL = ("the expansion factors (material correlations, temperature averaging)
            "successive steps are inside the model (Store, stepReuse / runReuse, stepFresh / runFresh) and tied call by call and "
            "history by history; updateComponentTempsBy1DTempField's block averages are inside the model (blockTemps) and tied; "
            "the material's expansion between two temperatures stays an input; manageCoreMesh is not modelled (its re-meshing is "
-           "property C11's setBlockMesh)")
+           "property C11's setBlockMesh); shared composition objects are inside the model (Heap / changeNDens / changeAll: "
+           "changeNDensByFactor builds a new composition for the component it is called on) and tied; the designation of "
+           "targets is inside the model (designate / setTargets / isTarget: a function of the current blocks alone) and tied on "
+           "re-designated blocks")
 ASSUMPTIONS = [
     "component mass = number density x area x parent block height (Component.getMass via getVolume); checked by the "
     "mass clauses of the oracle on every case",
@@ -2298,7 +2301,14 @@ def run(ctx):
                 "fresh ExpansionData on a twin and the whole history through the model's runReuse / runFresh; setExpansionFactors "
                 "call sequences (valid with repeats and exact 1.0, zero / negative factor, different lengths) with every stored "
                 "factor read back; temperature grids (fine, block boundaries, coarse, short, jittered, unequal lengths) through "
-                "updateComponentTempsBy1DTempField.")
+                "updateComponentTempsBy1DTempField. Aliased compositions (run_aliased, run_alias_cells): solid components that "
+                "share one numberDensities dict object (direct assignment within a block / to the same pin in the block above, "
+                "updateParamsFrom / copyParamsFrom clones), 1-3 expansions (uniform, per-component, isothermal) with every clause "
+                "after every single step and a twin whose components own their compositions. Re-designated targets "
+                "(run_retarget): 2-4 expansions of one assembly, the designated target of random blocks changed in between "
+                "(later -> earlier in the component order, earlier -> later, random; setAxialExpTargetComp or the parameter), a "
+                "brand-new changer each time, per-component growth; the targets must be exactly the currently designated "
+                "components.")
 
 
 def search(ctx, disagreements, broken):
